@@ -21,7 +21,7 @@ CHECKS = {
          "DESIGN.md §3 C02"),
  "C13": ("property-based reference testing + hint adversary (rapid, exhaustive sweep on F47)",
          "Range checks (widths 1..bitlen+2, mixes that move the limb width, commit and bit-decomposition paths) and logderivlookup tables (all index patterns, zero queries) are compared with the integer predicate / table[index] on both builders, the test engine and 7 curves; a hint adversary forges limbs and multiplicities (incl. a two-pass attack that learns the commitment) and must never get an out-of-range value accepted; the shared commitment must contain every gadget's data.",
-         "Lookup results (outputs of a solver instruction, not a hint) are not forged; log-derivative soundness error 1/p ignored (curve fields only for the adversary).",
+         "Lookup results (outputs of a solver instruction, not a hint) are not forged; log-derivative soundness error 1/p ignored (curve fields only for the adversary). Tables of three or more columns can only be built through the internal package std/internal/logderivarg (no public gadget does) and are out of reach of the harness module (seed c13e).",
          "DESIGN.md §3 C13"),
  "C03": ("property-based differential testing vs reference interpreter over the configuration product (rapid)",
          "Random provable programs biased to edge shapes, plus a deterministic sweep over EVERY small system size (2..17 rows, around 32 and 64) x 7 curves x {Groth16, PLONK} x consistent hash / statistical-ZK / solver-task options; the reference interpreter classifies the assignment: satisfying => Setup, Prove and Verify (two forms of the public witness) all succeed and a verifier with a different hash option rejects; non-satisfying => Prove returns an error, without panic; a prover goroutine that kills the process is attributed to the running case (crash breadcrumb).",
@@ -37,7 +37,7 @@ CHECKS = {
          "DESIGN.md §3 C07"),
  "C19": ("property-based differential testing + hint adversary on the GKR solve/prove hints (rapid)",
          "Random GKR topologies (add/mul/neg/sub and custom gates, fan-out, Series dependencies, 2^k instances) and the gkr-poseidon2 compression gadget (any number of calls, incl. non-powers of two) on both builders and the test engine: exported values must equal direct in-circuit evaluation; with GkrInfo detached and the genuine hints wrapped, 10 forgery kinds (altered outputs, proofs of another statement, altered proof elements, an adaptive attack that learns the first challenge) must all be unsatisfiable; every solve runs under a watchdog.",
-         "Single-instance topologies do not compile on this tree (recorded as an observation, outside the property); a cheating sum-check prover is not built, so bugs only exploitable by fabricating round polynomials are out of reach.",
+         "Instance counts are 2..64 in the generators plus one 2048-instance dependency case (chunked solving hint); single-instance topologies do not compile on this tree (recorded as an observation, outside the property); a cheating sum-check prover is not built, so bugs only exploitable by fabricating round polynomials are out of reach.",
          "DESIGN.md §3 C19"),
  "C08": ("structure-aware mutation of genuine artifacts with a crash + structural oracle (rapid; native fuzzing in the thorough tier)",
          "Genuine proofs, keys and witnesses of generated circuits on all curves and both backends are mutated at the byte level (length prefixes, truncation at and inside every slot, garbage, bit flips, zeros; compressed and raw) and at the object level (lists resized / nil, witnesses of wrong length or field, headers disagreeing with the payload, two compensating edits such as k fewer commitments with k more public inputs); no call may panic, byte counts must stay within the input, and structurally inconsistent inputs must be reported as errors.",
